@@ -140,7 +140,7 @@ def fast_conversion(transitions, *, minimal_residence=0):
 
 REAL_CALLS = {
     'T': [('matrix', (), {}), ('states_next', (), {}), ('states_prev', (), {})],
-    'J': [('matrix', (), {}), ('counter', (), {}), ('jump_diffusivity', (3,), {}), ('jump_diffusivity', (), {'dimensions': 1}), ('collective', (), {}), ('collective', (3.5,), {}), ('to_graph', (), {}), ('to_graph', (), {'max_e_act': 'MID'}), ('to_graph', (), {'min_e_act': 'MID'})],
+    'J': [('matrix', (), {}), ('counter', (), {}), ('jump_diffusivity', (3,), {}), ('jump_diffusivity', (), {'dimensions': 1}), ('collective', (), {}), ('collective', (3.5,), {}), ('to_graph', (), {}), ('to_graph', (), {'max_e_act': 'MID'}), ('to_graph', (), {'min_e_act': 'MID'}), ('split', (2,), {}), ('split', (3,), {})],
     'M': [('tracer_diffusivity', (), {'dimensions': 3}), ('tracer_diffusivity', (), {'dimensions': 1}), ('particle_density', (), {}), ('attempt_frequency', (), {}), ('tracer_conductivity', (), {'z_ion': 2, 'dimensions': 3}), ('haven_ratio', (), {})],
 }
 
@@ -281,6 +281,22 @@ def make_build(kind, nslots, cls=None):
                 name, args, kwargs = calls_of(kind, cls)[ci]
                 obj = w.slots[s]
                 meth = getattr(type(obj), name)
+                if not hasattr(meth, '__wrapped__'):
+                    # a method that is not memoised on this tree: it must still be repeatable on one object and agree with
+                    # the same call on a fresh object of the same data (hidden per-instance memos show up here)
+                    def outcome(o):
+                        try:
+                            r = getattr(type(o), name)(o, *args, **kwargs)
+                            return ('ok', [int(p.n_jumps) for p in r] if isinstance(r, list) else str(r)[:80])
+                        except Exception as e:  # noqa: BLE001
+                            return ('raise', type(e).__name__)
+
+                    r1, r2 = outcome(obj), outcome(obj)
+                    r3 = outcome(new_real(cls, w.variant[s], s, w.shared))
+                    if not (r1 == r2 == r3):
+                        w.errors.append(('uncached-method-not-repeatable', f'{type(obj).__name__}.{name}{args}: first {r1}, again {r2}, fresh object {r3}', ei))
+                    w.called.add((s, ci))
+                    continue
                 if 'MID' in kwargs.values():
                     # a threshold that really rejects some edge: the middle of the activation energies
                     acts = sorted(d['e_act'] for _, _, d in meth.__wrapped__(obj).edges(data=True))
@@ -299,6 +315,18 @@ def make_build(kind, nslots, cls=None):
                             w.errors.append(('cached-call-raises-differently', f'{name}{args}{kwargs}: {type(e).__name__} vs {type(e2).__name__}', ei))
                     w.called.add((s, ci))
                     continue
+                if name == 'collective' and kind != 'probe':
+                    # independent oracle for the correlation window (a value shared between objects inside the method
+                    # body is invisible to the cached-vs-uncached comparison)
+                    import math
+
+                    from gemdat.metrics import TrajectoryMetrics
+
+                    tj = obj.trajectory
+                    nu = float(TrajectoryMetrics(tj).attempt_frequency()[0])
+                    w_exp = math.ceil(1.0 / (nu * tj.time_step))
+                    if got.max_steps != w_exp:
+                        w.errors.append(('collective-window-not-from-this-objects-trajectory', f'variant {w.variant[s]}: max_steps={got.max_steps} expected {w_exp}', ei))
                 if not deep_equal(got, fresh) or not deep_equal(again, fresh):
                     w.errors.append(('cached-result-differs-from-uncached', f'{type(obj).__name__}.{name}{args}{kwargs} variant {w.variant[s]}: cached={str(got)[:120]} uncached={str(fresh)[:120]}', ei))
                 w.called.add((s, ci))
